@@ -69,6 +69,16 @@ CLAIMED = {
             "trusted: TLC, the transcription of the Jsonnet object semantics in part 1 of Objects.tla; member values are numbers, "
             "names {a,b}; quick tier replays a seeded sample of the enumerated chains (thorough replays all)",
             "DESIGN.md §4 C02"),
+    "C01": ("TLA+ spec Core (executable big-step semantics of the core language, written from the Jsonnet specification) "
+            "evaluated by TLC on bounded program families; every program replayed on the implementation under up to 10 "
+            "configurations (2 parsers, 2 printings, snippet/import/ext-code/TLA body)",
+            "TLC evaluates Run(p) for every program of the families (operators x typed pool incl. all ill-typed pairs, signatures x "
+            "call shapes with the positional=named invariant, expression grammar of depth <=2, object programs, indexing/slicing, "
+            "precedence nestings, hand-written scope/recursion/laziness programs); the implementation must give the same JSON "
+            "value or fail exactly when the model fails, in every configuration",
+            "trusted: TLC, the transcription of the Jsonnet semantics in Core.tla (call-by-name; integers < 1e9, exact division; "
+            "fuel-bounded: programs outside this domain are not judged); the pretty-printer of the driver",
+            "DESIGN.md §4 C01"),
 }
 
 NOT_YET = "specification module and binding not built yet in this round; see DESIGN.md §4 for the planned model"
